@@ -5,7 +5,7 @@ use vcore::drive::{enum_strings, prop_par, Verdict};
 use vcore::rt::{self, digest_str, Acc, Args, Report};
 use vcore::sgr::{self, MColor, MStyle};
 
-const RULE: &str = "Inputs: exhaustively all 1- and 2-word (thorough: 3-word) descriptions over a 60-word vocabulary (names, normal, -1, attributes with no/no- prefixes, numbers, hex colours, near misses) and all '#'+3 and '#'+6 strings over {0 9 a f A F g G + - space e-acute}; grammar-generated descriptions of 0..6 words in random order with random ASCII case and ASCII/Unicode white space; single-edit mutations of valid descriptions (insert/delete/replace, incl. multi-byte characters inside hex words); arbitrary Unicode. Oracle: a reference parser written from the syntax in the property (Result<style, (error kind, word)>), and parse(print(style)) == style for every expressible style. Excluded (undetermined by the statement, counted): decimal numbers with an explicit '+'. Non-trivial = at least 2 words, or a '#' word, or an input the reference rejects (distinct by input string).";
+const RULE: &str = "Inputs: exhaustively all 1- and 2-word (thorough: 3-word) descriptions over a 60-word vocabulary (names, normal, -1, attributes with no/no- prefixes, numbers, hex colours, near misses) and all '#'+3 and '#'+6 strings over {0 9 a f A F g G + - space e-acute}; grammar-generated descriptions of 0..6 words, and long ones of 15..1027 words around powers of two, in random order with random ASCII case and ASCII/Unicode white space; single-edit mutations of valid descriptions (insert/delete/replace, incl. multi-byte characters inside hex words); arbitrary Unicode. Oracle: a reference parser written from the syntax in the property (Result<style, (error kind, word)>), and parse(print(style)) == style for every expressible style. Excluded (undetermined by the statement, counted): decimal numbers with an explicit '+'. Non-trivial = at least 2 words, or a '#' word, or an input the reference rejects (distinct by input string).";
 
 #[derive(Debug, PartialEq, Eq, Clone)]
 enum RefErr {
@@ -192,7 +192,7 @@ fn vocabulary() -> Vec<String> {
         v.push(format!("no-{a}"));
     }
     for w in [
-        "0", "7", "8", "15", "16", "255", "256", "007", "0255", "999", "-0", "-2", "0x10", "1.0", "#000", "#fff", "#1a2b3c", "#ABCDEF", "#ffff", "#12345", "#ggg", "#", "Bold", "RED", "no", "no-", "nored", "no-normal", "brightred", "default", "reset", "bold,", "ul;", "é",
+        "0", "7", "8", "15", "16", "255", "256", "007", "0255", "999", "-0", "-2", "0x10", "1.0", "#000", "#fff", "#1a2b3c", "#ABCDEF", "#ffff", "#12345", "#ggg", "#", "Bold", "RED", "no", "no-", "nored", "no-normal", "brightred", "default", "reset", "bold,", "ul;", "é", "257", "65543", "4294967303", "18446744073709551623",
     ] {
         v.push(w.to_string());
     }
@@ -240,6 +240,33 @@ fn arb_description() -> BoxedStrategy<String> {
                 s.push_str(sep);
             }
             s
+        })
+        .boxed()
+}
+
+/// long descriptions: many attribute words (which never exhaust a slot) with up to two colours
+/// somewhere and a deciding last word, at lengths around powers of two
+fn arb_long() -> BoxedStrategy<String> {
+    let attr = || (prop::sample::select(ATTRS.iter().map(|a| a.0).collect::<Vec<_>>()), prop::sample::select(vec!["", "no", "no-"])).prop_map(|(a, p)| format!("{p}{a}"));
+    let colour = || prop_oneof![prop::sample::select(NAMES.to_vec()).prop_map(|s| s.to_owned()), (0u16..=255).prop_map(|n| n.to_string()), "#[0-9a-f]{6}", Just("normal".to_owned())];
+    let last = prop_oneof![3 => attr(), 3 => colour(), 1 => Just("bogus".to_owned()), 1 => Just("256".to_owned()), 1 => Just("#12".to_owned())];
+    (
+        prop::sample::select(vec![15usize, 16, 17, 31, 32, 33, 63, 64, 65, 127, 128, 129, 255, 256, 257, 300, 1023, 1024, 1025]),
+        0usize..=2,
+        proptest::collection::vec(attr(), 8..=24),
+        proptest::collection::vec((colour(), any::<prop::sample::Index>()), 0..=2),
+        last,
+        prop::sample::select(WS.to_vec()),
+    )
+        .prop_map(|(len, extra, pool, colours, last, sep)| {
+            let n = len + extra - 1;
+            let mut words: Vec<String> = (0..n).map(|i| pool[(i * 7 + i / pool.len()) % pool.len()].clone()).collect();
+            for (c, ix) in colours {
+                let p = ix.index(n);
+                words[p] = c;
+            }
+            words.push(last);
+            words.join(sep)
         })
         .boxed()
 }
@@ -368,6 +395,8 @@ fn run(args: &Args, rep: &mut Report) {
     };
     rep.add("valid-descriptions", false, "0..6 valid words, random order / ASCII case / ASCII+Unicode white space",
         prop_par("valid-descriptions", args.seed, tier.pick(60_000, 10_000_000), arb_description, sbody, |s| json!(s)));
+    rep.add("long-descriptions", false, "15..1027 words (lengths around powers of two): attribute words with up to two colours anywhere and a deciding last word (attribute, negation, colour, unknown word)",
+        prop_par("long-descriptions", args.seed, tier.pick(8_000, 400_000), arb_long, sbody, |s| json!(s)));
     rep.add("single-edit-mutations", false, "one insert/delete/replace at a character boundary of a valid description",
         prop_par("single-edit-mutations", args.seed, tier.pick(100_000, 8_000_000), arb_mutated, sbody, |s| json!(s)));
     rep.add("unicode-lookalikes", false, "keywords with U+212A / U+017F / U+0131 in place of k / s / i",
